@@ -66,6 +66,7 @@ func langTiers(c *Ctx) []langTier {
 			{decl: "alt", name: "alt-s3-l3", leaves: leavesAlt, maxSize: 3, toks: tokAlt, maxLen: 3},
 			{decl: "alt", name: "alt-s4-l2", leaves: leavesAlt, maxSize: 4, toks: tokAlt, maxLen: 2},
 			{decl: "num", name: "num-s3-l3", leaves: leavesNum, maxSize: 3, toks: tokNum, maxLen: 3},
+			{decl: "sub", name: "sub-s3-l3", leaves: leavesFull, maxSize: 3, toks: tokMid, maxLen: 3},
 		}
 	}
 	return []langTier{
@@ -78,6 +79,7 @@ func langTiers(c *Ctx) []langTier {
 		{decl: "alt", name: "alt-s2-l3", leaves: leavesAlt, maxSize: 2, toks: tokAlt, maxLen: 3},
 		{decl: "alt", name: "alt-s3-l2", leaves: leavesAlt, maxSize: 3, toks: tokAlt, maxLen: 2},
 		{decl: "num", name: "num-s2-l3", leaves: leavesNum, maxSize: 2, toks: tokNum, maxLen: 3},
+		{decl: "sub", name: "sub-s2-l3", leaves: leavesFull, maxSize: 2, toks: tokMid, maxLen: 3},
 	}
 }
 
@@ -347,6 +349,9 @@ func judgeLang(c *Ctx, d *ref.Decl, spec string, node *ref.Node, argv []string, 
 	}
 	if declName(d) == "alt" {
 		key += " declarations: --aa/-a flag, -n/-m flag, --out/-o/--output valued, X"
+	}
+	if declName(d) == "sub" {
+		key += " declared on the sub-command `sub`, command line prefixed with `sub`"
 	}
 	if declName(d) == "num" {
 		key += " declarations: -4/--ipv4 flag, -6 flag, -i flag, -n/--nan flag, -f/--nan-ok flag, -p/--port valued, X"
